@@ -417,7 +417,7 @@ func (ex *gateExec) checkAll() (string, string) {
 
 func layerGate(h *harness.H) {
 	h.AddRule("gate: PRNG histories of 8-30 open/set-authority/release ops (2-5 subjects, 1-3 disjoint regions, exclusive+shared); distinct = normalised op list; non-trivial = >=1 hand-off between two different subjects")
-	n := h.N(4000, 200000)
+	n := h.N(4000, 100000)
 	type out struct {
 		gc        gateCase
 		sig, what string
